@@ -102,7 +102,11 @@ theorem due_timer_fires_first (cfg : Cfg) (s : State) (c : Nat) (x : Conn) (t : 
 /-- Other subscribers keep receiving throughout: the stall / drop of `c` is an event about `c` only
     (C10.untouched_by_others), and C01's delivery theorems hold for all histories.  On a successful AUTH
     the broker sets the high-water mark to 50 maximal PUBLISH frames. -/
-theorem high_water_mark : limit OP_PUBLISH * 50 = (5 + MAXBUF) * 50 := by decide
+theorem high_water_mark : limit OP_PUBLISH * highWaterFactor = (5 + MAXBUF) * 50 := by decide
+
+/-- the grace period the model uses is the literal of `pause_writing`'s deadline task, regenerated from the source on
+    every run (`Extracted.GRACE_MS`); the property fixes it at 60 seconds -/
+theorem grace_is_sixty_seconds : gracePeriodMs = 60000 := by decide
 
 /-! non-vacuity (kernel-evaluated): stall at t=0; at 59 999 ms still connected; the clock reaches 60 000,
     the timer fires: ERROR + close stamped 60 000; a recovered connection is not dropped and a later
